@@ -790,6 +790,8 @@ class Fn:
 
 
 _ATOMS = None
+# functions some rule treats as one step although it names them only through a pattern
+EXTRA_ATOMS = {"stream::duplex::DuplexConnectionRequest::ack"}
 
 
 def atoms():
@@ -805,7 +807,7 @@ def atoms():
                 src = fh.read()
             for m in re.finditer(r'"(<?(?:client|server|service|stream|bridge|rewind|happy_eyeballs|info|body)::[A-Za-z0-9_:<> ]+)"', src):
                 names.add(norm(m.group(1)))
-        _ATOMS = names
+        _ATOMS = names | EXTRA_ATOMS
     return _ATOMS
 
 
